@@ -62,6 +62,21 @@ def plan(tier, seed):
         P.add("cg-mixed", n=n, cplx=bool(rng.random() < 0.5), cond=float(10 ** rng.uniform(0, 2)),
               x0=pick(rng, ["zero", "rand"]), A=pick(rng, ["linop", "func"]),
               P=pick(rng, ["none", "jacobi"]), xb=pick(rng, ["c64-c128", "f32-f64", "c64-f64"]))
+    # fault injection: a well-formed operator fails once in the middle of a run (transient
+    # I/O, out of memory, an interrupt) and the driver simply calls update() again: updates
+    # that raised did not count, the counted ones are the CG sequence.  (Only A is made to
+    # fail: applying it is the first thing an update does.  A failing preconditioner is
+    # reached after x and r have been advanced - not atomic on the pinned tree either, and
+    # nothing in the statement speaks about it; see DESIGN 10.4.)
+    for i in range(60 if quick else 800):
+        n = int(rng.integers(2, 13))
+        P.add("cg-fault", n=n, cplx=bool(rng.random() < 0.5),
+              cond=float(10 ** rng.uniform(0, 2)), x0=pick(rng, ["zero", "rand"]),
+              A=pick(rng, ["linop", "func"]), P=pick(rng, ["none", "none", "jacobi"]),
+              fail_at=[int(v) for v in sorted(rng.choice(np.arange(2, n + 2), size=int(
+                  rng.integers(1, min(3, n + 1))), replace=False))],
+              fail_in="A", exc=pick(rng, ["RuntimeError", "MemoryError",
+                                                                 "KeyboardInterrupt"]))
     for i in range(80 if quick else 1200):
         P.add("breakdown", n=int(rng.integers(1, 9)), cplx=bool(rng.random() < 0.5),
               kind=pick(rng, ["negdef", "indef", "singular", "zero"]),
@@ -493,7 +508,113 @@ def run_mixed(case):
     return held(sig, obs, 3, True)
 
 
+def run_fault(case):
+    import sigpy as sp
+    rng = rng_for(case)
+    n, cplx = case["n"], case["cplx"]
+    dt = np.complex128 if cplx else np.float64
+    M = hpd(rng, n, cplx, "geo", case["cond"])
+    b = crandn(rng, [n], dt)
+    x0 = np.zeros(n, dt) if case["x0"] == "zero" else crandn(rng, [n], dt)
+    Pm = np.diag(1 / np.real(np.diag(M))).astype(dt) if case["P"] == "jacobi" else None
+    sig = "cg-fault|%s|%s|%s|%s" % (case["A"], case["P"], case["fail_in"], case["exc"])
+    wit = dict(case)
+    exc = {"RuntimeError": RuntimeError, "MemoryError": MemoryError,
+           "KeyboardInterrupt": KeyboardInterrupt}[case["exc"]]
+
+    def make(fail_at, which):
+        count = {"A": 0, "P": 0}
+
+        def wrap(mat, key):
+            def f(v):
+                count[key] += 1
+                if key == which and count[key] in fail_at:
+                    raise exc("injected transient failure")
+                return mat @ v
+            return f
+        fa = wrap(M, "A")
+        A = sp.linop.Linop([n], [n]) if False else None
+        if case["A"] == "linop":
+            class Op(sp.linop.Linop):
+                def __init__(self):
+                    super().__init__([n], [n])
+
+                def _apply(self, input):
+                    return fa(input)
+
+                def _adjoint_linop(self):
+                    return self
+            A = Op()
+        else:
+            A = fa
+        Pf = wrap(Pm, "P") if Pm is not None else None
+        return A, Pf, count
+
+    K = n + 2
+    # reference run: no failure
+    A0, P0, _ = make((), "A")
+    xr = x0.copy()
+    alg0 = sp.alg.ConjugateGradient(A0, b, xr, P=P0, max_iter=K, tol=0)
+    ref = [xr.copy()]
+    while not alg0.done():
+        alg0.update()
+        ref.append(xr.copy())
+    which = case["fail_in"] if Pm is not None else "A"
+    A1, P1, count = make(tuple(case["fail_at"]), which)
+    x = x0.copy()
+    try:
+        alg = sp.alg.ConjugateGradient(A1, b, x, P=P1, max_iter=K, tol=0)
+    except BaseException as e:
+        inn = e
+        while not isinstance(inn, exc) and inn.__cause__ is not None:
+            inn = inn.__cause__
+        if isinstance(inn, exc):
+            return inconclusive("the injected failure hit the constructor", sig="cg-fault-ctor")
+        raise
+    got = [x.copy()]
+    raised = 0
+    checks = 0
+    steps = 0
+    while not alg.done() and steps < 4 * K + 8:
+        steps += 1
+        it0 = alg.iter
+        try:
+            alg.update()
+        except BaseException as e:
+            inn = e                       # (Linop.apply re-raises as RuntimeError from e)
+            while not isinstance(inn, exc) and inn.__cause__ is not None:
+                inn = inn.__cause__
+            if not isinstance(inn, exc):
+                raise
+            raised += 1
+            checks += 1
+            if alg.iter != it0:
+                return violated(sig, "an update that raised moved the iteration counter from "
+                                "%d to %d" % (it0, alg.iter), wit, mech="fault-counter")
+            continue                      # the driver simply tries again
+        got.append(x.copy())
+    if not raised:
+        return inconclusive("the injected failure was never reached", sig="cg-fault-unreached")
+    scale = max(nrm(np.linalg.solve(M, b)), nrm(x0), 1e-300)
+    if len(got) != len(ref):
+        return violated(sig, "after %d failed update(s) the run performed %d counted updates, "
+                        "the undisturbed run %d" % (raised, len(got) - 1, len(ref) - 1), wit,
+                        mech="fault-count")
+    for k in range(len(ref)):
+        checks += 1
+        d = nrm(got[k] - ref[k]) / scale
+        if not d <= 1e-9 * max(1.0, case["cond"]):
+            return violated(sig, "after an update failed (the operator raised %s once) and was "
+                            "repeated, the iterate after %d counted updates differs from the "
+                            "undisturbed CG iterate by %.3g (relative): it is no longer the "
+                            "Krylov-optimal one" % (case["exc"], k, d), wit,
+                            mech="fault-retry", obs={"dev": d, "k": k})
+    return held(sig, {"failed_updates": raised, "counted_updates": len(got) - 1}, checks, True)
+
+
 def run_case(case):
+    if case["gen"] == "cg-fault":
+        return run_fault(case)
     if case["gen"] == "cg-mixed":
         return run_mixed(case)
     if case["gen"] == "cg":
